@@ -384,6 +384,7 @@ func checkC10(w *Worker) {
 		}
 		c := appCase{Args: append(args, cmd.Args...), Files: fl}
 		r := runApp(c)
+		x.w.binMustAgree(x, c, r, "C10|"+strings.Join(cmd.Args, " "))
 		x.Obs(r.Key())
 		x.Case(fmt.Sprint(ci, kind, c.Args), true)
 		kn := []string{"directory-as-log", "directory-as-book", "line-65535", "line-65536", "line-65537", "line-70000"}[kind]
